@@ -68,8 +68,8 @@ def oneOp (p : String) : RdM String := do
       U_nrow := un, U_ncol := uc, U_Stype := ust, U_Dtype := udt, U_Mtype := umt,
       B_lda := bl, B_Stype := bst, B_Dtype := bdt, B_Mtype := bmt }
     let chk := (pick p sgstrsCheck dgstrsCheck cgstrsCheck zgstrsCheck) a
-    let conj := p == "c" || p == "z"
-    return resLine id s!"{p}gstrs" chk (gstrs.docInfo dt a) (decide (Coded.gstrsExcl conj dt a)) (gstrs.valid dt a)
+    let docConj := p == "s" || p == "d"      -- the s/d header lists CONJ, the c/z header does not
+    return resLine id s!"{p}gstrs" chk (gstrs.docInfo docConj dt a) (decide (Coded.gstrsExcl docConj dt a)) (gstrs.valid docConj dt a)
       (pick p sgstrsXerblaName dgstrsXerblaName cgstrsXerblaName zgstrsXerblaName)
   | "gsrfs" =>
     let v_trans ← int
@@ -113,7 +113,8 @@ def oneOp (p : String) : RdM String := do
       uplo := v_uplo, trans := v_trans, diag := v_diag, L_nrow := ln, L_ncol := lc, L_Stype := lst, L_Dtype := ldt, L_Mtype := lmt,
       U_nrow := un, U_ncol := uc, U_Stype := ust, U_Dtype := udt, U_Mtype := umt }
     let chk := (pick p sp_strsvCheck sp_dtrsvCheck sp_ctrsvCheck sp_ztrsvCheck) a
-    return resLine id s!"sp_{p}trsv" chk (trsv.docInfo dt a) (decide (Coded.trsvExcl dt a)) (trsv.valid dt a)
+    let cOk := p == "s" || p == "d"          -- s/d accept the documented 'C'; c/z reject it
+    return resLine id s!"sp_{p}trsv" chk (trsv.docInfo dt a) (decide (Coded.trsvExcl cOk dt a)) (trsv.valid dt a)
       (pick p sp_strsvXerblaName sp_dtrsvXerblaName sp_ctrsvXerblaName sp_ztrsvXerblaName)
   | "gemv" =>
     let v_trans ← int
